@@ -137,12 +137,14 @@ func Main() {
 		r.Extra(k, m)
 	}
 	tallyMu.Unlock()
-	r.Extra("exhaustive", map[string]interface{}{
-		"max_parts":              6,
-		"configurations":         len(cfgs),
-		"arrival_orders_all":     r.Counter("exhaustive_permutations"),
-		"adversarial_insertions": r.Counter("exhaustive_bogus_insertions"),
-		"note":                   "every arrival order of every set of <= 6 parts (each step followed by a duplicate); every adversarial part of the matrix at every insertion point, under every order for <= 4 parts (sizes 1, 7, 1000) and under 2-3 orders otherwise",
+	r.Exhaustive(false) // the check as a whole explores; the sub-check below is exhaustive within its stated bound
+	r.Extra("part_matrix", map[string]interface{}{
+		"exhaustive_within_bound": true,
+		"max_parts":               6,
+		"configurations":          len(cfgs),
+		"arrival_orders_all":      r.Counter("exhaustive_permutations"),
+		"adversarial_insertions":  r.Counter("exhaustive_bogus_insertions"),
+		"note":                    "every arrival order of every set of <= 6 parts (each step followed by a duplicate); every adversarial part of the matrix at every insertion point, under every order for <= 4 parts (sizes 1, 7, 1000) and under 2-3 orders otherwise",
 	})
 	r.Floor("exhaustive_permutations", 800)
 	r.Floor("bogus_rejected", 10000)
